@@ -39,7 +39,6 @@ use std::collections::BTreeMap;
 use std::sync::Arc;
 use vf_kit::engine::*;
 
-use crate::c30::fail_result;
 use crate::walk::{self, Finding, Judged, Program, Purpose, Walk, WalkCase, WalkNode, concat, fmt_value, lex_violation, row_keys};
 
 pub struct C28;
@@ -379,6 +378,10 @@ pub fn check_node(n: &WalkNode, f: &mut Facts) -> Result<(), String> {
     Ok(())
 }
 
+fn is_ordering(msg: &str) -> bool {
+    msg.contains("declares the ordering") || msg.contains("declares output_ordering()")
+}
+
 /// all violated claims (at most one per node), classified against the open known findings
 pub fn check(w: &Walk) -> (Facts, Vec<Finding>) {
     let mut f = Facts::default();
@@ -392,6 +395,17 @@ pub fn check(w: &Walk) -> (Facts, Vec<Finding>) {
             } else if probe.outer_join_padded_constant && (msg.contains(" constant") || msg.contains("equivalence class") || msg.contains("declares the ordering") || msg.contains("declares output_ordering()")) {
                 // known finding: constants of the NULL-padded side survive an outer join (and orderings derived from them)
                 Some("outer-join-constant-of-null-padded-side".to_string())
+            } else if is_ordering(&msg) && walk::subtree_has(&n.plan, &|p| p.name().contains("WindowAggExec") && { let d = walk::one_line_full(p.as_ref()); d.contains("wdw=[count(") && !d.contains("UNBOUNDED PRECEDING") }) {
+                // known finding: a sliding-frame count() is declared set-monotonic (its output "sorted") although rows leave the frame
+                Some("sliding-window-count-declared-monotonic".to_string())
+            } else if is_ordering(&msg) && msg.contains("Null") && walk::subtree_has(&n.plan, &|p| p.name().contains("WindowAggExec")) {
+                // known finding: the ordering declared for a running (ever-expanding frame) window aggregate says NULLS LAST
+                // although the aggregate is NULL until the first non-NULL value enters the frame
+                Some("running-window-aggregate-ordering-ignores-leading-nulls".to_string())
+            } else if is_ordering(&msg) && w.declared.iter().any(|d| d.orderings.len() > 1) && walk::subtree_has(&n.plan, &|p| p.name() == "SortPreservingMergeExec" || walk::one_line_full(p.as_ref()).contains("preserve_order=true")) {
+                // known finding: an order-preserving merge keeps every ordering of its input's equivalence class although it
+                // only merges by one of them
+                Some("merge-keeps-orderings-other-than-the-merge-key".to_string())
             } else {
                 None
             };
@@ -440,7 +454,7 @@ impl Property for C28 {
 fn judge(case: &WalkCase) -> Judged {
     let w = match walk::walk(case) {
         Ok(w) => w,
-        Err(e) => return Judged::clean(fail_result(e)),
+        Err(e) => return crate::c30::fail_judged(e, case),
     };
     let labels = walk::plan_labels(case, &w);
     let (f, mut findings) = check(&w);
